@@ -10,6 +10,7 @@
           2 = property oracle fails on the observation, 0 = case does not parse. *)
 From Coq Require Import ZArith List Bool Arith.
 From Verif Require Import Base.Wire Pipeline.Model Pipeline.Exec Pipeline.Source.
+From VerifGen Require GenPipeline.
 Import ListNotations.
 Open Scope Z_scope.
 Open Scope wire_scope.
@@ -141,10 +142,32 @@ Definition check_xml : P (list Z) :=
   let j2 := oracle objs eEOF calls && (extra =? 0) in
   ret (code_if j1 1 ++ code_if j2 2)%list.
 
+(* tag 3: XML scan, context cancelled from another goroutine inside a long run of tokens that yield
+   no object: nodes_before run_length nodes_after | ids err scan_again fired reads_after_cancel.
+   Oracle: the nodes before the run were delivered in order and nothing else, Err is the context's
+   error, a further Scan is false, and at most the reads of the token in progress plus one further
+   token follow the cancel (the token-level model Pipeline/Exec.v xtstep reads at most one more
+   token, theorem C07_xml_bounded_read_ahead; a token of this document is < 48 bytes = 1 Read) *)
+Definition check_xml_cancel : P (list Z) :=
+  before <- pnat ;; skip <- pnat ;; after_ <- pnat ;;
+  ids <- plist pint ;; e <- pint ;; again <- pbool ;; fired <- pbool ;; reads <- pint ;;
+  let toks := map (fun j => XObj (Z.of_nat j + 1)) (seq 0 before) ++ repeat XSkip skip
+              ++ map (fun j => XObj (Z.of_nat (before + j) + 1)) (seq 0 after_) in
+  (* the model, cancelled in the middle of the run: same delivered objects, same Err *)
+  let sched := repeat (XLCall CScan) 1 ++ flat_map (fun _ => [XLStep; XLStep; XLCall CScan]) (seq 0 before)
+               ++ repeat XLStep (skip / 2) ++ [XLCancel3] ++ repeat XLStep 4 ++ [XLCall CErr] in
+  let '(x, outs) := xtrun (negb GenPipeline.xml_scan_guards) sched (xtinit toks) in
+  let j1 := list_eqb Z.eqb (xt_delivered x) ids
+            && match last outs (OErr (-1)) with OErr me => me =? e | _ => false end in
+  let j2 := fired && list_eqb Z.eqb ids (map (fun j => Z.of_nat j + 1) (seq 0 before))
+            && (e =? eCtx) && negb again && (reads <=? 2) in
+  ret (code_if j1 1 ++ code_if j2 2)%list.
+
 Definition check_case (t : toks) : list Z :=
   match t with
   | tag :: rest =>
-      let p := if tag =? 2 then check_pbf else if tag =? 4 then check_xml else pfail in
+      let p := if tag =? 2 then check_pbf else if tag =? 4 then check_xml
+               else if tag =? 6 then check_xml_cancel else pfail in
       match parse_all p rest with Some codes => codes | None => [0] end
   | [] => [0]
   end.
